@@ -282,6 +282,9 @@ func (s EC2API) DescribeInstanceStatusPages(in *ec2.DescribeInstanceStatusInput,
 				from++
 			}
 			_ = i
+			if w.ReadyHalfNever && staggered(id) {
+				continue
+			}
 			if inst := w.EC2[id]; inst != nil && inst.State == "pending" && w.polls >= from {
 				inst.State = "running"
 			}
@@ -365,3 +368,6 @@ func staggered(id string) bool {
 	}
 	return (id[len(id)-1]-'0')%2 == 1
 }
+
+// NeverReadyUnderHalf reports whether ReadyHalfNever keeps this instance from ever becoming ready.
+func NeverReadyUnderHalf(id string) bool { return staggered(id) }
